@@ -290,7 +290,23 @@ func synthDynamic(rng *rand.Rand, w *BitW, plain []byte, br int) []byte {
 		run := j - i
 		v := all[i]
 		useRep := rng.Intn(3) > 0
-		if v == 0 && run >= 3 && useRep {
+		if v == 0 && run >= 4 && useRep && rng.Intn(3) == 0 {
+			// an explicitly coded zero followed by repeat code 16: "copy the previous
+			// code length", which is the zero just coded (legal; zlib and Go never emit it)
+			seq = append(seq, cl{0, 0, 0})
+			run--
+			for run >= 3 {
+				r := run
+				if r > 6 {
+					r = 6
+				}
+				seq = append(seq, cl{16, r - 3, 2})
+				run -= r
+			}
+			for ; run > 0; run-- {
+				seq = append(seq, cl{0, 0, 0})
+			}
+		} else if v == 0 && run >= 3 && useRep {
 			first := true
 			for run >= 3 {
 				if !first && rng.Intn(2) == 0 {
